@@ -177,7 +177,7 @@ Lemma ratio_m_pos n d : 0 < n <= max64 -> 0 < d <= max64 ->
 Proof.
   intros Hn Hd. unfold ratio_m. rewrite gcd_m_spec by lia. cbn [bind].
   pose proof (gcd_pos_l n d ltac:(lia)) as Hg.
-  destruct (Z.gcd n d =? 0) eqn:E; [lia|].
+  destruct ((d =? 0) || (Z.gcd n d =? 0)) eqn:E; [lia|].
   rewrite !Z.abs_eq by lia. unfold max64, min64 in *.
   rewrite !cx64_ok by (unfold min64, max64; lia). cbn [bind].
   unfold sign_m. destruct (n <? 0) eqn:E1; [lia|]. destruct (d <? 0) eqn:E2; [lia|].
@@ -212,19 +212,6 @@ Lemma mk_dty_spec w n d : 0 < n <= max64 -> 0 < d <= max64 ->
   mk_dty w n d = Val {| rw := w; pn := n / Z.gcd n d; pd := d / Z.gcd n d |}.
 Proof. intros Hn Hd. unfold mk_dty. rewrite ratio_m_pos by lia. reflexivity. Qed.
 
-(** * ratio_divide.hpp *)
-Lemma ratio_divide_m_spec n1 d1 n2 d2 :
-  period_ok n1 d1 = true -> period_ok n2 d2 = true ->
-  n1 * d2 <= max64 -> d1 * n2 <= max64 ->
-  ratio_divide_m (n1, d1) (n2, d2)
-  = Val ((n1 * d2) / Z.gcd (n1 * d2) (d1 * n2), (d1 * n2) / Z.gcd (n1 * d2) (d1 * n2)).
-Proof.
-  unfold period_ok, lim64. intros H1 H2 Ha Hb. unfold ratio_divide_m. cbn [fst snd].
-  assert (0 < n1 * d2) by nia. assert (0 < d1 * n2) by nia.
-  rewrite !cx64_ok by (unfold min64; lia). cbn [bind].
-  apply ratio_m_pos; lia.
-Qed.
-
 (* facts about a reduced fraction a/g, b/g *)
 Lemma reduce_facts a b : 0 < a -> 0 < b ->
   let g := Z.gcd a b in
@@ -236,3 +223,83 @@ Proof.
   assert (Hb' : b / g = b') by (rewrite Eb at 1; apply Z.div_mul; lia).
   rewrite Ha', Hb'. repeat split; try lia; nia.
 Qed.
+
+(** * ratio_divide.hpp *)
+(* cross-cancelling two fractions in lowest terms leaves the quotient in lowest terms *)
+Lemma cross_cancel n1 d1 n2 d2 :
+  0 < n1 -> 0 < d1 -> 0 < n2 -> 0 < d2 -> Z.gcd n1 d1 = 1 -> Z.gcd n2 d2 = 1 ->
+  let g1 := Z.gcd n1 n2 in
+  let g2 := Z.gcd d2 d1 in
+  let a := n1 / g1 * (d2 / g2) in
+  let b := d1 / g2 * (n2 / g1) in
+  0 < g1 /\ 0 < g2 /\ 0 < n1 / g1 /\ 0 < d2 / g2 /\ 0 < d1 / g2 /\ 0 < n2 / g1
+  /\ n1 * d2 = a * (g1 * g2) /\ d1 * n2 = b * (g1 * g2)
+  /\ Z.gcd a b = 1 /\ Z.gcd (n1 * d2) (d1 * n2) = g1 * g2.
+Proof.
+  intros Hn1 Hd1 Hn2 Hd2 Hc1 Hc2 g1 g2 a b.
+  assert (Hg1 : 0 < g1) by (apply gcd_pos_l; lia).
+  assert (Hg2 : 0 < g2) by (apply gcd_pos_l; lia).
+  destruct (Z.gcd_divide_l n1 n2) as [n1' En1]. destruct (Z.gcd_divide_r n1 n2) as [n2' En2].
+  destruct (Z.gcd_divide_l d2 d1) as [d2' Ed2]. destruct (Z.gcd_divide_r d2 d1) as [d1' Ed1].
+  fold g1 in En1, En2. fold g2 in Ed1, Ed2.
+  assert (Q1 : n1 / g1 = n1') by (rewrite En1 at 1; apply Z.div_mul; lia).
+  assert (Q2 : n2 / g1 = n2') by (rewrite En2 at 1; apply Z.div_mul; lia).
+  assert (Q3 : d1 / g2 = d1') by (rewrite Ed1 at 1; apply Z.div_mul; lia).
+  assert (Q4 : d2 / g2 = d2') by (rewrite Ed2 at 1; apply Z.div_mul; lia).
+  assert (P1 : 0 < n1') by nia. assert (P2 : 0 < n2') by nia.
+  assert (P3 : 0 < d1') by nia. assert (P4 : 0 < d2') by nia.
+  (* pairwise coprimality of the cancelled factors *)
+  assert (R12 : rel_prime n1' n2').
+  { apply Zgcd_1_rel_prime. rewrite <- Q1, <- Q2. apply Z.gcd_div_gcd; [lia|reflexivity]. }
+  assert (R43 : rel_prime d2' d1').
+  { apply Zgcd_1_rel_prime. rewrite <- Q4, <- Q3. apply Z.gcd_div_gcd; [lia|reflexivity]. }
+  assert (D1 : (n1' | n1)) by (exists g1; lia). assert (D2 : (n2' | n2)) by (exists g1; lia).
+  assert (D3 : (d1' | d1)) by (exists g2; lia). assert (D4 : (d2' | d2)) by (exists g2; lia).
+  apply Zgcd_1_rel_prime in Hc1, Hc2.
+  assert (R13 : rel_prime n1' d1').
+  { apply rel_prime_sym. eapply rel_prime_div; [|exact D3]. apply rel_prime_sym.
+    eapply rel_prime_div; [exact Hc1|exact D1]. }
+  assert (R42 : rel_prime d2' n2').
+  { eapply rel_prime_div; [|exact D4]. apply rel_prime_sym.
+    eapply rel_prime_div; [exact Hc2|exact D2]. }
+  assert (Rab : rel_prime (n1' * d2') (d1' * n2')).
+  { apply rel_prime_sym. apply rel_prime_mult; apply rel_prime_sym; apply rel_prime_mult; assumption. }
+  apply Zgcd_1_rel_prime in Rab.
+  unfold a, b. rewrite Q1, Q2, Q3, Q4.
+  assert (EA : n1 * d2 = n1' * d2' * (g1 * g2)) by (rewrite En1, Ed2; ring).
+  assert (EB : d1 * n2 = d1' * n2' * (g1 * g2)) by (rewrite Ed1, En2; ring).
+  repeat split; try assumption.
+  rewrite EA, EB. rewrite Z.gcd_mul_mono_r_nonneg by nia. rewrite Rab. ring.
+Qed.
+
+(* ratio_divide yields the conversion factor in lowest terms whenever that is representable *)
+Lemma ratio_divide_m_spec n1 d1 n2 d2 :
+  period_ok n1 d1 = true -> period_ok n2 d2 = true ->
+  factor_num n1 d1 n2 d2 <= max64 -> factor_den n1 d1 n2 d2 <= max64 ->
+  ratio_divide_m (n1, d1) (n2, d2) = Val (factor_num n1 d1 n2 d2, factor_den n1 d1 n2 d2).
+Proof.
+  unfold period_ok, lim64, factor_num, factor_den. intros H1 H2 Ha Hb.
+  assert (Hn1 : 0 < n1 <= max64) by (unfold max64; lia). assert (Hd1 : 0 < d1 <= max64) by (unfold max64; lia).
+  assert (Hn2 : 0 < n2 <= max64) by (unfold max64; lia). assert (Hd2 : 0 < d2 <= max64) by (unfold max64; lia).
+  destruct (cross_cancel n1 d1 n2 d2) as (Hg1 & Hg2 & P1 & P4 & P3 & P2 & EA & EB & Hab & EG); try lia.
+  rewrite EG in *.
+  assert (Hk : 0 < Z.gcd n1 n2 * Z.gcd d2 d1) by nia.
+  rewrite EA in Ha |- *. rewrite EB in Hb |- *. rewrite !Z.div_mul in * by lia.
+  unfold ratio_divide_m. cbn [fst snd].
+  destruct (n2 =? 0) eqn:E0; [lia|].
+  rewrite !gcd_m_spec by lia. cbn [bind].
+  destruct ((Z.gcd n1 n2 =? 0) || (Z.gcd d2 d1 =? 0)) eqn:Eg; [lia|].
+  rewrite !Z.quot_div_nonneg by lia.
+  set (a := n1 / Z.gcd n1 n2 * (d2 / Z.gcd d2 d1)) in *.
+  set (b := d1 / Z.gcd d2 d1 * (n2 / Z.gcd n1 n2)) in *.
+  assert (Ha0 : 0 < a) by (unfold a; nia). assert (Hb0 : 0 < b) by (unfold b; nia).
+  rewrite !cx64_ok by (unfold min64; lia). cbn [bind].
+  apply ratio_m_normal. unfold period_ok, lim64. unfold max64 in *. lia.
+Qed.
+
+Lemma factor_facts n1 d1 n2 d2 : 0 < n1 * d2 -> 0 < d1 * n2 ->
+  let cn := factor_num n1 d1 n2 d2 in let cd := factor_den n1 d1 n2 d2 in
+  let g := Z.gcd (n1 * d2) (d1 * n2) in
+  0 < g /\ n1 * d2 = cn * g /\ d1 * n2 = cd * g /\ 0 < cn /\ 0 < cd.
+Proof. intros Ha Hb. apply reduce_facts; assumption. Qed.
+
